@@ -25,6 +25,9 @@ pub struct ColSpec {
     /// run an index growth in this (uniform, zero salt) column before the history starts, so that
     /// log record ids and commit ids diverge and two index generations may coexist
     pub grow: bool,
+    /// the universe keys themselves collide (uniform keys, zero salt): all share one 16-bit index
+    /// chunk, groups of them agree on every bit the index stores and differ only in the key tail
+    pub collide: bool,
 }
 
 impl ColSpec {
@@ -40,6 +43,7 @@ impl ColSpec {
             direct: j["direct"].as_bool().unwrap_or(false),
             noempty: j["noempty"].as_bool().unwrap_or(false),
             grow: j["grow"].as_bool().unwrap_or(false),
+            collide: j["collide"].as_bool().unwrap_or(false),
             kind,
         }
     }
@@ -93,6 +97,45 @@ pub struct Universe {
     pub small: bool,
     rev: Vec<HashMap<Vec<u8>, Vec<(usize, i64)>>>,
     pub nvals: usize,
+    /// boundary mode (C06): value id v has length size_table[c][v-1], id embedded in the bytes
+    pub size_table: Option<Vec<Vec<usize>>>,
+}
+
+/// entry sizes of the 255 fixed-size value tables (column.rs SIZES: log distribution 32..32760)
+pub fn tier_sizes() -> Vec<usize> {
+    let (start, end, n) = (32f64, 32760f64, 255usize);
+    let factor = ((end.ln() - start.ln()) / (n - 1) as f64).exp();
+    let mut s = start;
+    let mut r = Vec::new();
+    for _ in 0..n {
+        r.push(s.round() as usize);
+        s *= factor;
+    }
+    r
+}
+
+/// Value lengths at every boundary of the storage layout for a column kind: for each size tier
+/// the largest value that fits, one less and one more; around the multipart part boundaries;
+/// empty, tiny, and above 1 MiB.
+pub fn boundary_sizes(spec: &ColSpec) -> Vec<usize> {
+    let ovh = 2 + if spec.is_rc() { 4 } else { 0 } + if spec.is_btree() { 0 } else { 26 };
+    let mut v: Vec<usize> = vec![0, 1, 2, 3, 4, 5];
+    for e in tier_sizes() {
+        if e > ovh + 1 {
+            let cap = e - ovh;
+            v.extend_from_slice(&[cap - 1, cap, cap + 1]);
+        }
+    }
+    // multipart: first part holds 4096-2-8-(rc+key), middle parts 4086, the last up to 4094
+    let first = 4096 - 10 - (ovh - 2);
+    for n in 2..=5usize {
+        let total = first + (n - 2) * 4086 + 4094;
+        v.extend_from_slice(&[total - 1, total, total + 1, total - 4094, total - 4093]);
+    }
+    v.extend_from_slice(&[(1 << 20) + 1, 3_000_001]);
+    v.sort();
+    v.dedup();
+    v
 }
 
 fn fill(rng: &mut SmallRng, len: usize, compressible: bool) -> Vec<u8> {
@@ -117,9 +160,20 @@ impl Universe {
             let mut attempt = 0usize;
             while ks.len() < nkeys {
                 let i = ks.len() + attempt;
-                let k = if spec.uniform {
+                let k = if spec.collide {
+                    // identity hash: bytes 0..8 are what the index sees (chunk = first 16+ bits, then the
+                    // partial key); 16 distinct 64-bit prefixes, so with more keys several share all of it
+                    let mut k = vec![0u8; 32];
+                    k[0] = 0xc0;
+                    k[1] = 0x11 + c as u8;
+                    k[2] = ((i % 4) as u8) << 6; // separates the keys when the index grows to 17 / 18 bits
+                    k[3] = ((i / 4) % 4) as u8;
+                    let tail = fill(&mut rng, 24, false);
+                    k[8..].copy_from_slice(&tail);
+                    k
+                } else if spec.uniform {
                     // (zero salt = the instrumentation-only identity hash, which takes exactly 32 bytes)
-                    let zero_salt = cols.iter().any(|c| c.grow);
+                    let zero_salt = cols.iter().any(|c| c.grow || c.collide);
                     let len = if (seed as usize + i) % 3 == 0 && !zero_salt { 40 } else { 32 };
                     fill(&mut rng, len, false)
                 } else if spec.is_btree() {
@@ -156,7 +210,7 @@ impl Universe {
             }
             keys.push(ks);
         }
-        let mut u = Universe { cols, nkeys, seed, keys, small, rev: Vec::new(), nvals };
+        let mut u = Universe { cols, nkeys, seed, keys, small, rev: Vec::new(), nvals, size_table: None };
         // reverse table: value bytes -> (key rank, value id), per column
         for c in 0..u.cols.len() {
             let mut m: HashMap<Vec<u8>, Vec<(usize, i64)>> = HashMap::new();
@@ -201,8 +255,32 @@ impl Universe {
         }
     }
 
+    /// Switch to boundary mode: nvals = number of boundary sizes of the widest column.
+    pub fn with_boundary_sizes(cols: Vec<ColSpec>, nkeys: usize, seed: u64) -> Universe {
+        let tables: Vec<Vec<usize>> = cols.iter().map(boundary_sizes).collect();
+        let nvals = tables.iter().map(|t| t.len()).max().unwrap_or(1);
+        let mut u = Universe::new(cols, nkeys, 0, seed, true);
+        u.nvals = nvals;
+        u.size_table = Some(tables);
+        u
+    }
+
+    fn boundary_val(&self, c: usize, v: i64) -> Vec<u8> {
+        let t = &self.size_table.as_ref().unwrap()[c];
+        let size = t[(v as usize - 1) % t.len()];
+        let mut rng = SmallRng::seed_from_u64(self.seed ^ ((c as u64) << 40) ^ ((v as u64) << 8) ^ 0x9999);
+        let mut out = fill(&mut rng, size, v % 2 == 0);
+        if size >= 4 {
+            out[0..4].copy_from_slice(&(v as u32).to_le_bytes());
+        }
+        out
+    }
+
     /// Bytes of abstract value `v` written to key `k` of column `c`.
     pub fn val(&self, c: usize, k: usize, v: i64) -> Vec<u8> {
+        if self.size_table.is_some() && !self.cols[c].value_from_key() {
+            return self.boundary_val(c, v)
+        }
         let spec = &self.cols[c];
         let size = self.val_size(c, k, v);
         if spec.value_from_key() {
@@ -250,6 +328,23 @@ impl Universe {
 
     /// Abstract value id of the bytes read from key `k` (−1: bytes nobody wrote there).
     pub fn val_id(&self, c: usize, k: usize, bytes: &[u8]) -> i64 {
+        if let (Some(t), false) = (&self.size_table, self.cols[c].value_from_key()) {
+            let t = &t[c];
+            if bytes.len() >= 4 {
+                let v = u32::from_le_bytes(bytes[0..4].try_into().unwrap()) as i64;
+                if v >= 1 && self.boundary_val(c, v) == bytes {
+                    return v
+                }
+                return -1
+            }
+            // tiny values: identified by their length (each tiny length occurs once in the table)
+            for (i, s) in t.iter().enumerate() {
+                if *s == bytes.len() && self.boundary_val(c, i as i64 + 1) == bytes {
+                    return i as i64 + 1
+                }
+            }
+            return -1
+        }
         if let Some(l) = self.rev[c].get(bytes) {
             for (kk, v) in l {
                 if *kk == k || !self.cols[c].value_from_key() {
@@ -282,7 +377,7 @@ pub fn options(path: &Path, cols: &[ColSpec], seed: u64, threads: bool) -> Optio
         sync_wal: true,
         sync_data: true,
         stats: seed % 2 == 0,
-        salt: if cols.iter().any(|c| c.grow) { Some([0u8; 32]) } else { None },
+        salt: if cols.iter().any(|c| c.grow || c.collide) { Some([0u8; 32]) } else { None },
         compression_threshold: thr,
         with_background_thread: threads,
         always_flush: true,
@@ -499,6 +594,8 @@ pub type Callback = Arc<dyn Fn(&str, &[u64], usize) + Send + Sync>;
 /// sequence number; it is assigned while holding the recorder mutex, i.e. still inside the
 /// critical section that made the reported change visible.
 pub struct Recorder {
+    /// table files stored to since their last msync (only to drop no-op msync events)
+    dirty: Mutex<std::collections::HashSet<String>>,
     pub events: Mutex<Vec<J>>,
     pub callback: Mutex<Option<Callback>>,
     pub enabled: std::sync::atomic::AtomicBool,
@@ -507,6 +604,7 @@ pub struct Recorder {
 impl Recorder {
     pub fn install() -> Arc<Recorder> {
         let r = Arc::new(Recorder {
+            dirty: Mutex::new(Default::default()),
             events: Mutex::new(Vec::new()),
             callback: Mutex::new(None),
             enabled: std::sync::atomic::AtomicBool::new(true),
@@ -531,6 +629,14 @@ impl Recorder {
         if !watched {
             return
         }
+        // an msync of a file with no store since its last msync changes nothing in the trace spec
+        // (the dirty set): leave it out, a clean-up pass msyncs every table of every column
+        if call == "msync" && ret == 0 {
+            let mut d = self.dirty.lock().unwrap();
+            if !d.remove(name) {
+                return
+            }
+        }
         let mut pos = 0usize;
         if self.enabled.load(std::sync::atomic::Ordering::Relaxed) {
             let mut ev = self.events.lock().unwrap();
@@ -553,7 +659,13 @@ impl Recorder {
                     2 => format!("index_{:02}_{}", id >> 8, id & 0xff),
                     _ => format!("refcount_{:02}_{}", id >> 8, id & 0xff),
                 };
-                ev.push(json!({"e": name, "a": args, "f": f, "t": tid()}));
+                // a run of stores to the same file is one event (the trace spec only needs which
+                // file was dirtied while which record was being applied)
+                self.dirty.lock().unwrap().insert(f.clone());
+                let same = ev.last().map_or(false, |l| l["e"] == "TabWrite" && l["f"] == f.as_str() && l["t"] == tid());
+                if !same {
+                    ev.push(json!({"e": name, "a": args, "f": f, "t": tid()}));
+                }
             } else if name == "CommitLin" {
                 let tx = PENDING_TX.with(|p| p.borrow_mut().take()).unwrap_or(J::Null);
                 ev.push(json!({"e": "Commit", "cid": args[0], "tx": tx, "t": tid()}));
